@@ -9,6 +9,7 @@ import (
 	"encoding/hex"
 	"fmt"
 	"os"
+	"os/exec"
 	"runtime"
 	"strconv"
 	"time"
@@ -127,6 +128,24 @@ func helperMain(args []string) {
 		stressWorker(args[1:])
 	case "hist": // hist <dir> <proc> <goroutines> <iters> <seed> <mode>
 		histWorker(args[1:])
+	case "stresslaunch": // stresslaunch <dir> <procs> <goroutines> <iters> <seed> <npaths>
+		// one parent for all workers, so that a single `strace -f` sees every process
+		self, _ := os.Executable()
+		n, _ := strconv.Atoi(args[2])
+		var cmds []*exec.Cmd
+		for pr := 0; pr < n; pr++ {
+			c := exec.Command(self, "helper", "stress", args[1], fmt.Sprint(pr), args[3], args[4], args[5], args[6])
+			c.Stdout = os.Stdout
+			c.Stderr = os.Stderr
+			if err := c.Start(); err == nil {
+				cmds = append(cmds, c)
+			}
+		}
+		for _, c := range cmds {
+			c.Wait()
+		}
+	case "mutexmisc": // mutexmisc <dir>: the corners of Mutex, one line each
+		mutexMisc(args[1])
 	case "holdfd": // holdfd: keep the inherited descriptor 3 open until stdin closes
 		fmt.Println("HOLDING")
 		buf := make([]byte, 1)
@@ -146,4 +165,57 @@ func helperMain(args []string) {
 	// the finalizer of an unclosed File panics on purpose; give it no chance to hide
 	runtime.GC()
 	time.Sleep(0)
+}
+
+// mutexMisc exercises the corners of Mutex and prints one observable per line.
+func mutexMisc(dir string) {
+	catch := func(name string, f func() string) {
+		defer func() {
+			if e := recover(); e != nil {
+				fmt.Printf("%s PANIC %s\n", name, hexs([]byte(fmt.Sprint(e))))
+			}
+		}()
+		fmt.Printf("%s %s\n", name, f())
+	}
+	catch("zero-lock", func() string {
+		var mu lockedfile.Mutex
+		unlock, err := mu.Lock()
+		if err == nil {
+			unlock()
+			return "locked"
+		}
+		return "err"
+	})
+	catch("at-empty", func() string { lockedfile.MutexAt(""); return "ok" })
+	p := dir + "/mu-fresh"
+	os.Remove(p)
+	catch("string", func() string { return hexs([]byte(lockedfile.MutexAt(p).String())) })
+	catch("absent", func() string {
+		unlock, err := lockedfile.MutexAt(p).Lock()
+		if err != nil {
+			return "err"
+		}
+		_, serr := os.Stat(p)
+		unlock()
+		b, _ := os.ReadFile(p)
+		return fmt.Sprintf("ok exists=%v len=%d", serr == nil, len(b))
+	})
+	catch("relock", func() string { // the unlock function really released it
+		for i := 0; i < 3; i++ {
+			unlock, err := lockedfile.MutexAt(p).Lock()
+			if err != nil {
+				return "err"
+			}
+			unlock()
+		}
+		return "ok"
+	})
+	catch("nodir", func() string {
+		unlock, err := lockedfile.MutexAt(dir + "/no/such/dir/mu").Lock()
+		if err != nil {
+			return "err"
+		}
+		unlock()
+		return "ok"
+	})
 }
